@@ -248,7 +248,7 @@ func Main(t *testing.T, h *Harness) {
 	}
 
 	var session *Session
-	var sessionClass, sessionTrace string
+	var sessionTrace string
 	if rp := os.Getenv("VERIF_REPLAY"); rp != "" {
 		data, err := os.ReadFile(rp)
 		if err != nil {
@@ -288,7 +288,7 @@ func Main(t *testing.T, h *Harness) {
 		}
 		// the plan alone does not fail in a fresh process: re-run the session that led to it
 		session = rf.Session
-		sessionClass, sessionTrace = rf.Class, rf.TraceHash
+		sessionTrace = rf.TraceHash
 		seed, worker, tier = rf.Seed, rf.Worker, rf.Tier
 		res.Evaluations = 0
 	}
@@ -435,7 +435,10 @@ func Main(t *testing.T, h *Harness) {
 				break
 			}
 			if session != nil {
-				res.Replay = &ReplayResult{Reproduced: out.Violation.Class == sessionClass, Class: out.Violation.Class, Detail: out.Violation.Detail,
+				// The session's last batch failed again. The class of the *minimised* plan may differ from the
+				// recorded one: shrinking is bounded by wall-clock time, and with state carried across plans
+				// every shrink attempt changes what later attempts meet.
+				res.Replay = &ReplayResult{Reproduced: true, Class: out.Violation.Class, Detail: out.Violation.Detail,
 					SameTrace: fmt.Sprintf("%016x", out.TraceHash) == sessionTrace, ViaSession: true, Known: matchKnown(plan, out),
 					TraceHash: fmt.Sprintf("%016x", out.TraceHash)}
 				break
